@@ -1105,6 +1105,18 @@ class C10(Machine):
             if v < 0.35 and kind not in SINGLETONS:
                 so, sinfo = _twin(rng, pb, n0, n1, o, info)
                 pb.plan["meta"]["twin"] = "key"
+            elif v >= 0.7 and v < 0.85 and kind in ("ECB", "CBC", "CTR", "HMAC") and mode != 3:
+                # a sibling built over the SAME collaborator object (cipher / counter / hash):
+                # two modes sharing one cipher, two HMACs sharing one hash object
+                import copy as _copy
+                rec = _copy.deepcopy(pb.plan["objects"][o])
+                sinfo = dict(info)
+                if kind == "HMAC":
+                    rec["key"] = B(rbytes(rng, rng.choice([1, 16, info["bb"], info["bb"] + 1])))
+                else:
+                    _cz_mode(rng, rec, sinfo)
+                so = pb.obj(rec)
+                pb.plan["meta"]["twin"] = "shared_collaborator"
             elif v < 0.7 and kind in COUSIN:
                 # a *cousin*: the same recipe with exactly one configuration field changed (and
                 # the same message pool), so that anything cached per class/module and keyed on
@@ -1115,6 +1127,8 @@ class C10(Machine):
                 pb.plan["meta"]["twin"] = "cousin"
             else:
                 so, sinfo = mk(rng, pb, False)
+            if pb.plan["meta"].get("twin"):
+                pb.plan["meta"]["twin_kind"] = kind
             sib = Ctx(rng, pb, kind, so, sinfo)
             roles[str(so)] = "sibling"
             ctxs.append(sib)
@@ -1303,6 +1317,8 @@ class C10(Machine):
             prev_any.append((kind, oi))
         if plan["meta"].get("shared"):
             probe("runs_with_object_shared_by_clients")
+        if plan["meta"].get("twin"):
+            probe("runs_with_sibling_" + str(plan["meta"]["twin"]))
         extra = {"ngrams": sorted(ngrams), "faults": fcount,
                  "fps": sorted(set((plan["meta"].get("kind", "?") + ":" + f) for e in hist for f in e.get("fp", [])))}
         return vs, probes, "|".join(trace), nontrivial, extra
